@@ -213,3 +213,134 @@ Example C18_reset_op_nonvacuous :
   | inl _ => False
   end.
 Proof. vm_compute. repeat split; reflexivity. Qed.
+
+(* ------------------------------------------------------------------------------------
+   THE MESSAGE READER (wsutil.Reader): "a message reader that has delivered or discarded a
+   complete message reads the next message exactly as a new reader would".
+   Definitions: coq/model/ReaderStreamC13.v ([at_rest], [fresh_of], [new_reader_ms],
+   [with_events_before], [flag_and_log], [reads_on_as_new], [msg_frames_rsv]); proofs:
+   coq/proofs/ReaderFreshProofs.v.
+
+   [at_rest r] = "reset r = r and no message is open": opcode, frame, raw.N, the UTF-8 reader
+   (source, state, accepted count) have their initial values.  The record of such a Reader is
+   LITERALLY the freshly constructed one except for: the cipher reader's key/position and
+   "masked" flag left over from the last frame, and what OnIntermediate recorded so far; the
+   wsflate.MessageState is an object of its own that the Reader only points to, so a Reader
+   built anew ([fresh_of r] = [new_reader_ms] over r's source, State, options and
+   MessageState) sees the same flag.
+
+   State level, for EVERY Reader state and configuration (side, SkipHeaderCheck, CheckUTF8,
+   MaxFrameSize, extension or not, either OnIntermediate), any source, valid stream or not:
+   a Read that returns io.EOF, and a Discard that returns nil, leave the Reader at rest ... *)
+Require Import Reader ReaderAux ReaderStream ReaderStreamC13 ReaderFreshProofs.
+
+Theorem C18_reader_at_rest_after_eof : forall k r d r',
+  reader_read k r = ((d, Some (RIo EEOF)), r') -> at_rest r'.
+Proof. exact read_eof_at_rest. Qed.
+Print Assumptions C18_reader_at_rest_after_eof.
+
+Theorem C18_reader_at_rest_after_discard : forall fuel r r', discard fuel r = (None, r') -> at_rest r'.
+Proof. exact discard_at_rest. Qed.
+Print Assumptions C18_reader_at_rest_after_discard.
+
+(* ... and a Reader at rest is observationally the new one: (1) the NextFrame / read-to-EOF loop
+   with any buffers and fuel gives the same result (messages, interleaved control events with
+   their flags, leftover bytes, final error), the events coming after what r had logged before;
+   (2) EVERY sequence of NextFrame / Read / Discard calls returns the same headers, bytes and
+   errors, and leaves the same MessageState flag and the same log (after r's earlier log);
+   (3) the same call results also against [new_reader] with a FRESH MessageState — the
+   leftover flag never influences a header, a byte or an error; it only shows in the flag
+   recorded for a control frame received OUTSIDE a message (wsflate.MessageState.UnsetBits
+   leaves the flag alone on control frames, in Go as in the model: see the Example) *)
+Theorem C18_reader_at_rest_is_new : forall r, at_rest r ->
+  (forall fuel bufs, drive fuel bufs r = with_events_before (r_log r) (drive fuel bufs (fresh_of r))) /\
+  (forall ops, fst (run_script ops r) = fst (run_script ops (fresh_of r)) /\
+     flag_and_log (snd (run_script ops r)) =
+       (fst (flag_and_log (snd (run_script ops (fresh_of r)))),
+        r_log r ++ snd (flag_and_log (snd (run_script ops (fresh_of r)))))) /\
+  (forall ops, fst (run_script ops r) =
+     fst (run_script ops (new_reader (r_src r) (r_state r) (r_skip r) (r_check_utf8 r) (r_max r) (r_ext r) (r_cb r)))).
+Proof. exact at_rest_is_new. Qed.
+Print Assumptions C18_reader_at_rest_is_new.
+
+(* Stream level.  A stream [m1 ++ rest] that the frame-sequence spec accepts to its end, [m1] =
+   ONE data message (text/binary, reserved bits rsv0 on its first frame, fragmented
+   arbitrarily, control frames in between: [msg_frames_rsv]), [rest] = whatever frames follow;
+   any transport chunking [s]; a Reader of ANY configuration [c] (side/extension bits, CheckUTF8,
+   MaxFrameSize, MessageState attached or not; header checks on, recording OnIntermediate).
+   (a) After NextFrame and reading the message to io.EOF with ANY caller buffers, and
+   (b) after NextFrame, ANY number of Read calls with any buffer sizes [ks] (whether or not they
+       reach the end of the message) and then Discard — which returns nil —
+   the Reader [r2] satisfies [reads_on_as_new c rest flag r2] (coq/model/ReaderStreamC13.v):
+   its source holds exactly the wire bytes of [rest]; it is at rest; the MessageState flag is
+   flag = "extension attached and RSV1 on m1's first frame"; the constructor's Reader over that
+   source is [new_reader_ms ... flag]; the read loop from r2 equals the read loop from that new
+   Reader (for every fuel and buffers: events, leftover, error); and every NextFrame / Read /
+   Discard sequence returns from r2 what it returns from [new_reader] over that source. *)
+Theorem C18_reader_next_message_as_new : forall c rsv0 op k0 p0 l rest s,
+  let m1 := msg_frames_rsv rsv0 op k0 p0 l in
+  let flag := c_ext c && rsv1_bit rsv0 in
+  wf_cfg c -> (op = 1 \/ op = 2) -> Forall wf_sframe (m1 ++ rest) ->
+  Forall (fun x => Forall (fun f => ctl_ok f = true) (fr_ctl x)) l ->
+  sr_out (spec_run c 0 None [] (m1 ++ rest)) = OClean ->
+  wf_src s -> tl s = TEOF -> flat s = wire (m1 ++ rest) ->
+  let r0 := new_reader s (c_state c) false (c_check_utf8 c) (c_max c) (c_ext c) CbReadAll in
+  (forall bufs all fuel, (length (wire (m1 ++ rest)) <= fuel)%nat ->
+     exists h r1 p r2, next_frame r0 = ((h, None), r1) /\
+       read_to_eof fuel bufs all r1 [] = ((p, RIo EEOF), r2) /\ reads_on_as_new c rest flag r2) /\
+  (forall ks, exists h outs r2,
+     run_script (OpNext :: map OpRead ks ++ [OpDiscard]) r0 = (OutNext h None :: outs ++ [OutDiscard None], r2) /\
+     length outs = length ks /\ reads_on_as_new c rest flag r2).
+Proof. exact reader_next_message_as_new. Qed.
+Print Assumptions C18_reader_next_message_as_new.
+
+(* a server with extensions (state 5), UTF-8 checking on, chunks of 3,1,7,2,...; m1 = the
+   compressed text "h€!" in three masked fragments with a ping before the second, m2 = a
+   masked binary message, then a ping standing alone.
+   (b) NextFrame, Read of ONE byte, Discard: Discard returns nil, the ping of m1 was logged,
+       the Reader is at rest with the flag of m1 (true) and the source at m2; the loop from
+       there delivers m2 intact (flag false) and the last ping, and is the loop of the new
+       Reader over that source and MessageState; every call sequence (here: NextFrame, two
+       Reads, NextFrame, Read) returns what it returns from new_reader.
+   (a) the same after reading m1 to io.EOF.
+   The one trace of the past: the ping AFTER m2 is logged with flag false by both; a ping
+   directly after m1 (stream m1 ++ [ping]) is logged with the stale flag true, with flag false
+   from a Reader with a fresh MessageState. *)
+Example C18_reader_nonvacuous :
+  let k1 := [17; 34; 51; 68] in let k2 := [255; 0; 128; 7] in
+  let ping := mkSF true 0 9 (Some k2) [1; 2] in
+  let l := [mkFrag [ping] (Some k2) [130]; mkFrag [] (Some k1) [172; 33]] in
+  let m1 := msg_frames_rsv 4 1 (Some k1) [104; 226] l in
+  let m2 := [mkSF true 0 2 (Some k2) [0; 255; 7]] in
+  let rest := m2 ++ [ping] in
+  let c := mkCfg 5 true 0 true in
+  let s := mkSrc (chunk_by [3; 1; 7; 2] (wire (m1 ++ rest))) TEOF in
+  let r0 := new_reader s 5 false true 0 true CbReadAll in
+  let outs := fst (run_script [OpNext; OpRead 1; OpDiscard] r0) in
+  let rb := snd (run_script [OpNext; OpRead 1; OpDiscard] r0) in
+  let e1 := snd (fst (next_frame r0)) in
+  let ra_res := read_to_eof 100 [2; 5; 1] [2; 5; 1] (snd (next_frame r0)) [] in
+  let ra := snd ra_res in
+  let script := [OpNext; OpRead 2; OpRead 9; OpNext; OpRead 4] in
+  (wf_cfg c /\ Forall wf_sframe (m1 ++ rest) /\ sr_out (spec_run c 0 None [] (m1 ++ rest)) = OClean /\
+   wf_src s /\ flat s = wire (m1 ++ rest)) /\
+  (map (fun o => match o with OutNext _ e => e | OutRead _ e => e | OutDiscard e => e end) outs = [None; None; None] /\
+   at_rest rb /\ flat (r_src rb) = wire rest /\ r_compressed rb = true /\ r_masked rb = true /\
+   r_log rb = [mkEv 9 [1; 2] true true] /\
+   drive 100 [4; 1] rb = mkDR [mkEv 9 [1; 2] true true; mkEv 2 [0; 255; 7] false false; mkEv 9 [1; 2] false false] [] (RIo EEOF) /\
+   drive 100 [4; 1] rb = with_events_before (r_log rb) (drive 100 [4; 1] (new_reader_ms (r_src rb) 5 false true 0 true CbReadAll true)) /\
+   fst (run_script script rb) = fst (run_script script (new_reader (r_src rb) 5 false true 0 true CbReadAll))) /\
+  (e1 = None /\ fst ra_res = ([104; 226; 130; 172; 33], RIo EEOF) /\ at_rest ra /\ flat (r_src ra) = wire rest /\
+   r_compressed ra = true /\
+   drive 100 [4; 1] ra = with_events_before (r_log ra) (drive 100 [4; 1] (new_reader_ms (r_src ra) 5 false true 0 true CbReadAll true))) /\
+  (let s' := mkSrc (chunk_by [3; 1; 7; 2] (wire (m1 ++ [ping]))) TEOF in
+   let r2 := snd (run_script [OpNext; OpDiscard] (new_reader s' 5 false true 0 true CbReadAll)) in
+   dr_events (drive 100 [4] r2) = [mkEv 9 [1; 2] true true; mkEv 9 [1; 2] false true] /\
+   dr_events (drive 100 [4] (new_reader (r_src r2) 5 false true 0 true CbReadAll)) = [mkEv 9 [1; 2] false false]).
+Proof.
+  cbv zeta. split.
+  - split; [reflexivity|]. split.
+    { repeat constructor; try reflexivity; try (intro H; discriminate H). }
+    split; [vm_compute; reflexivity|]. split; [vm_compute; repeat constructor; discriminate|]. vm_compute; reflexivity.
+  - vm_compute. repeat split; reflexivity.
+Qed.
